@@ -88,10 +88,10 @@ func genC20(r *core.Rand, p *core.Plan) {
 		switch r.Weighted([]int{30, 12, 10, 12, 8, 10, 8, 5, 8, 6}) {
 		case 0: // send with a backend answer class; minconf 0 chains onto unconfirmed change
 			p.Ops = append(p.Ops, core.Op{K: "sendx", A: []int64{int64(r.Range(1, 30)) * 1e5, int64(r.Intn(2)), int64(r.Range(1, 5)) * 1000,
-				int64(r.Intn(len(answerClasses))), int64(r.Intn(3))}})
+				int64(r.Intn(len(answerClasses))), int64(r.Intn(3)), int64(r.Intn(8))}})
 		case 1: // build, then publish (possibly twice / after it confirmed)
 			p.Ops = append(p.Ops, core.Op{K: "build", A: []int64{int64(r.Range(1, 30)) * 1e5, int64(r.Intn(2)), 2000}})
-			p.Ops = append(p.Ops, core.Op{K: "publish", A: []int64{int64(r.Intn(4)), int64(r.Intn(len(answerClasses)))}})
+			p.Ops = append(p.Ops, core.Op{K: "publish", A: []int64{int64(r.Intn(4)), int64(r.Intn(len(answerClasses))), int64(r.Intn(8))}})
 			if r.Chance(1, 2) {
 				if r.Chance(1, 2) {
 					p.Ops = append(p.Ops, core.Op{K: "mine", A: []int64{1, 100, -1, 600, int64(r.Uint64() >> 1)}})
@@ -265,7 +265,11 @@ func (rs *runState) sendx(step int, op core.Op) {
 	outs := []*wire.TxOut{{Value: amount, PkScript: foreignScript(x.foreignN)}}
 	x.armAnswer(class)
 	nSends := len(x.client.Sends)
-	tx, err := x.w.SendOutputs(outs, nil, 0, minconf, fee, wallet.CoinSelectionLargest, "")
+	label := c20label(op.Arg(5))
+	if len(label) > wtxmgr.TxLabelLimit {
+		env.Count("fault.label-refused-by-the-store")
+	}
+	tx, err := x.w.SendOutputs(outs, nil, 0, minconf, fee, wallet.CoinSelectionLargest, label)
 	// whatever was armed and not consumed must not leak into later operations
 	x.client.SendAnswers = nil
 	x.client.FailNext["NotifyReceived"] = 0
@@ -393,7 +397,14 @@ func (rs *runState) publish(step int, op core.Op) {
 	desc := x.unminedDescendants(h)
 	x.armAnswer(class)
 	nSends := len(x.client.Sends)
-	perr := x.w.PublishTransaction(tx, "")
+	label := c20label(op.Arg(2))
+	if wasRecorded || confirmedBefore || inPoolBefore {
+		label = "" // a refused label on a transaction that is already recorded changes nothing: not an attempt this oracle speaks about
+	}
+	if len(label) > wtxmgr.TxLabelLimit {
+		env.Count("fault.label-refused-by-the-store")
+	}
+	perr := x.w.PublishTransaction(tx, label)
 	x.client.SendAnswers = nil
 	x.client.FailNext["NotifyReceived"] = 0
 	x.client.FailNth["NotifyReceived"] = 0
@@ -477,6 +488,19 @@ func (rs *runState) publish(step int, op core.Op) {
 		}
 		x.sent = append(x.sent, tx)
 	}
+}
+
+// c20label: no label mostly, now and then an ordinary one, now and then one
+// the store refuses (longer than wtxmgr.TxLabelLimit) — a hand-over the wallet
+// cannot complete.
+func c20label(m int64) string {
+	switch uint64(m) % 8 {
+	case 6:
+		return "rent, second half"
+	case 7:
+		return strings.Repeat("x", wtxmgr.TxLabelLimit+1)
+	}
+	return ""
 }
 
 // publishDetached: PublishTransaction of a built transaction while the wallet
